@@ -573,18 +573,19 @@ func checkInsertIfAbsent(r *Report, la *LockAn, rule, key string, fn *ssa.Functi
 		}
 		n++
 		mode, held := la.HeldAt(mu)[lock]
+		// any lookup of the same key whose not-found edge leads here and that is in the same
+		// critical section will do (a double-checked creation has an earlier one outside it)
 		var lk *ssa.Lookup
+		atomic := false
 		for _, c := range CondsOf(mu.Block()) {
 			if ex, ok := c.V.(*ssa.Extract); ok && ex.Index == 1 && !c.Pol {
 				if l, ok := ex.Tuple.(*ssa.Lookup); ok && l.CommaOk && Path(l.X) == Path(mu.Map) && Path(l.Index) == Path(mu.Key) {
 					lk = l
+					if _, lkHeld := la.HeldAt(l)[lock]; lkHeld && !unlockBetweenInstr(l, mu) {
+						atomic = true
+					}
 				}
 			}
-		}
-		atomic := lk != nil && !unlockBetweenInstr(lk, mu)
-		if lk != nil {
-			_, lkHeld := la.HeldAt(lk)[lock]
-			atomic = atomic && lkHeld
 		}
 		r.Check(held && mode == 'W' && atomic, rule, key+"/insert-if-absent-atomic", posOf(mu),
 			"map insert under write lock=%v, on the not-found edge of a lookup of the same key=%v, lookup and insert in one critical section=%v", held && mode == 'W', lk != nil, atomic)
